@@ -154,6 +154,29 @@ def k3_values(run, rng, n):
                     ok = False
                     ds_problem = {"label_values": kind, "labels": tl.tolist(), "new_chunks": nc, "group_straddles_boundaries_at": straddles(tl.tolist(), nc)}
                     break
+            # method='blockwise' called on the ORIGINAL chunking (the automatic rechunk happens inside groupby_reduce), with missing labels
+            # placed next to chunk boundaries that cut a run: exact all the same
+            ln = labels.astype(float)
+            bnds = np.cumsum(chunks)[:-1]
+            for b in bnds:
+                if rng.random() < 0.5:
+                    ln[b - 1 if rng.random() < 0.5 else b] = np.nan
+            if rng.random() < 0.5:
+                ln[rng.randrange(m)] = np.nan
+            present = np.unique(ln[~np.isnan(ln)])
+            if len(present):
+                try:
+                    rb, gb = flox.groupby_reduce(arr, ln, func="sum", method="blockwise")
+                    rb, gb = np.asarray(rb.compute()), np.asarray(gb)
+                    wb = np.stack([[row[ln == g].sum() for g in present] for row in data])
+                    if not (np.array_equal(gb, present) and rb.shape == wb.shape and np.array_equal(rb, wb)):
+                        ok = False
+                        ds_problem = {"blockwise_with_missing_labels": ln.tolist(), "chunks": list(chunks), "got": rb.tolist(), "labels_returned": gb.tolist(), "want": wb.tolist()}
+                except (ValueError, NotImplementedError):
+                    pass
+                except Exception as e:  # noqa: BLE001
+                    ok = False
+                    ds_problem = {"blockwise_with_missing_labels": ln.tolist(), "chunks": list(chunks), "raised": repr(e)[:200]}
             res, _ = flox.groupby_reduce(out, labels, func="sum", method="blockwise")
             want = np.stack([np.bincount(labels, weights=row) for row in data])
             ok = ok and np.array_equal(np.asarray(res.compute()), want)
